@@ -11,6 +11,8 @@ claimed={
  "C03":(MC,"Explicit-state search over the abstract heap of two aliased slice variables: all operation histories up to a depth, then breadth-first search with state merging; every transition is replayed as a program on the real transpiler+bash with the full heap printed after every step, and compared with the reference model. Plus exhaustive index sweeps for strings (all in-range (a,b) pairs per length) and element-wise slice growth.","§2 C03",TB_MODEL+" State merging assumes equal abstract heaps have equal futures in the implementation; the all-paths tier does not.","explicit-state (BFS) search over operation histories with every model trace replayed on the implementation"),
  "C04":(EXPL,"Complete table of statement kinds x operand slots x enclosing contexts, every non-empty subset of slots carrying a tracer; the printed effect trace of the real bash run must equal the reference interpreter's (order, multiplicity, eager conditions, loop-condition timing).","§2 C04",TB_MODEL+" Switch tags and range operands carry no tracer (unspecified by the property).","exhaustive enumeration of tracer placements over a statement/slot/context table, executed on the real implementation"),
  "C05":(EXPL,"The C01-C04 program enumerators at reduced bounds with 32-bit values: each program is transpiled to Batch by the real transpiler and executed under an executable model of cmd.exe's documented rules (no cmd.exe exists in the sandbox); the model is calibrated on every run against the Windows half of the repository's own suite (161 expectations) before any generated program is judged. Runs the model refuses to decide are counted as unmodelled, never judged.","§2 C05, Appendix A","Trusted base: engine/cmdmodel (~2900 lines Go) = cmd.exe's documented rules; calibration corpus = repository's Windows tests (known to pass on upstream's Windows CI); reference interpreter at 32 bits.","bounded-exhaustive enumeration of programs executed under a calibrated executable model of cmd.exe and compared with a reference interpreter"),
+ "C06":(EXPL,"Complete enumeration of the typing table: every typed position of the grammar x every offered expression (27 spellings over the 8 offered types) x every enclosing context, decided against Go's typing rules / the README's builtin signatures; both targets must reject ill-typed and accept well-typed programs identically.","§2 C06","Trusted: the per-position accept sets written from Go's rules and the README signatures (engine/checks/c06.go); pairs the property leaves unspecified are skipped and counted.","exhaustive enumeration of a (position x offered type x context) table against an independent typing oracle, both targets"),
+ "C07":(EXPL,"Every block-structure skeleton up to n items / depth 3 over definitions, uses, loops, switches, functions, calls, break/continue/return placements; an independent scoper decides accept/reject/unspecified from the rules the property states; both targets must agree, and accepted programs are also executed against the reference interpreter (a scope hole shows as a stale value). Plus a two-file import-boundary table.","§2 C07",TB_MODEL+" The scoper (engine/checks/c07.go) is three-valued: cases the property does not decide are skipped and counted.","bounded-exhaustive enumeration of scope skeletons against an independent scoping oracle, plus execution of the accepted ones"),
 }
 m={
  "version":1,
